@@ -34,6 +34,10 @@ type Script struct {
 	// DynamicKeyAssigns counts assignments table[expr] = ... whose key is not a constant
 	DynamicKeyAssigns []int
 	Calls             []string // called function names (dotted), e.g. "string.gsub", "os.execute"
+	// MulOfQuotient lists the lines of products one operand of which is a quotient, x * (a / b):
+	// in floating point the quotient is rounded before the product, so an exact percentage
+	// (x*a divisible by b) can come out just below the integer
+	MulOfQuotient []int
 	CallSites         []CallSite
 	curGuard          string
 	sawReturn         bool // a return statement was seen earlier in source order: later statements are not unconditional
@@ -138,6 +142,13 @@ func (s *Script) walkExpr(e ast.Expr) {
 		s.walkExpr(x.Lhs)
 		s.walkExpr(x.Rhs)
 	case *ast.ArithmeticOpExpr:
+		if x.Operator == "*" {
+			for _, side := range []ast.Expr{x.Lhs, x.Rhs} {
+				if q, ok := side.(*ast.ArithmeticOpExpr); ok && q.Operator == "/" {
+					s.MulOfQuotient = append(s.MulOfQuotient, x.Line())
+				}
+			}
+		}
 		s.walkExpr(x.Lhs)
 		s.walkExpr(x.Rhs)
 	case *ast.StringConcatOpExpr:
